@@ -132,6 +132,7 @@ type loopInfo struct {
 	ann     *LoopAnn
 	backs   []*ssa.BasicBlock
 	phis    []*ssa.Phi
+	frame     *Frame
 	headState *State // state assumed at head (after havoc)
 	headPhis  map[ssa.Value]Val
 }
@@ -207,7 +208,7 @@ func (e *Enc) newFrame(fn *ssa.Function, parent *Frame) *Frame {
 			if h.Dominates(u) {
 				li := fr.loops[h]
 				if li == nil {
-					li = &loopInfo{head: h, body: map[*ssa.BasicBlock]bool{h: true}}
+					li = &loopInfo{head: h, body: map[*ssa.BasicBlock]bool{h: true}, frame: fr}
 					fr.loops[h] = li
 					heads = append(heads, h)
 				}
@@ -706,7 +707,7 @@ func (e *Enc) enterLoop(fr *Frame, li *loopInfo, preds []*ssa.BasicBlock, conds 
 				ov[phi] = e.val(fr, phi.Edges[pi])
 			}
 			for j, inv := range ann.Invariants {
-				ctx := &ExprCtx{e: e, fr: fr, st: sts[k], block: b, idx: len(li.phis), phiOverride: ov, atLoopHead: li}
+				ctx := &ExprCtx{e: e, fr: fr, st: sts[k], old: e.entry, block: b, idx: len(li.phis), phiOverride: ov, atLoopHead: li, fc: e.frameContract(fr)}
 				g := ctx.boolExpr(inv.Expr)
 				e.addObligation("inv-init", fmt.Sprintf("loop%d#%d", li.ordinal, j), conds[k], g, inv.Text)
 			}
@@ -723,6 +724,9 @@ func (e *Enc) enterLoop(fr *Frame, li *loopInfo, preds []*ssa.BasicBlock, conds 
 			e.havocKey(*st, k, "loop")
 		}
 	} else {
+		if os.Getenv("GOWP_LOOPS") != "" {
+			fmt.Fprintf(os.Stderr, "loop %d of %s modifies: %v\n", li.ordinal, fr.fn.Name(), sortedKeys(mods))
+		}
 		for _, k := range sortedKeys(mods) {
 			if _, ok := e.keySorts[k]; ok {
 				e.get(*st, k, e.keySorts[k])
@@ -745,7 +749,7 @@ func (e *Enc) enterLoop(fr *Frame, li *loopInfo, preds []*ssa.BasicBlock, conds 
 	}
 	// 3. assume invariants
 	for _, inv := range ann.Invariants {
-		ctx := &ExprCtx{e: e, fr: fr, st: *st, block: b, idx: len(li.phis), atLoopHead: li}
+		ctx := &ExprCtx{e: e, fr: fr, st: *st, old: e.entry, block: b, idx: len(li.phis), atLoopHead: li, fc: e.frameContract(fr)}
 		g := ctx.boolExpr(inv.Expr)
 		e.s.Assume(Imp(*reach, g))
 	}
@@ -803,8 +807,16 @@ func (e *Enc) backEdge(fr *Frame, li *loopInfo, from *ssa.BasicBlock) {
 		ov[phi] = e.val(fr, phi.Edges[pi])
 	}
 	for j, inv := range li.ann.Invariants {
-		ctx := &ExprCtx{e: e, fr: fr, st: fr.states[from], block: li.head, idx: len(li.phis), phiOverride: ov, atLoopHead: li}
+		ctx := &ExprCtx{e: e, fr: fr, st: fr.states[from], old: e.entry, block: li.head, idx: len(li.phis), phiOverride: ov, atLoopHead: li, fc: e.frameContract(fr)}
 		g := ctx.boolExpr(inv.Expr)
 		e.addObligation("inv-pres", fmt.Sprintf("loop%d#%d", li.ordinal, j), cond, g, inv.Text)
 	}
+}
+
+// frameContract: the contract whose lets / loop annotations apply to a frame.
+func (e *Enc) frameContract(fr *Frame) *FuncContract {
+	if fr.isTop {
+		return e.fc
+	}
+	return e.eng.contractFor(fr.fn)
 }
